@@ -176,8 +176,10 @@ Definition header_fields (items iu : str) (msg : str) : option out :=
   | None => None
   | Some st_ =>
     let prefixLen := if isPeek then 25 else 20 in
-    match slice_from items (Z.of_nat (st_ + prefixLen)) with
-    | None => None                                          (* Go panics *)
+    (* 182d3e8: a truncated item (no room for a field list) uses the default set *)
+    match Some (match slice_from items (Z.of_nat (st_ + prefixLen)) with
+                | Some f => f | None => [] end) with
+    | None => None
     | Some fieldsStr =>
       let req :=
         match index fieldsStr [RP] with
